@@ -172,6 +172,7 @@ Why == CASE Ev.op = "solve"    -> First(SolveWhy(Ev), WbWhy(Ev))
          [] Ev.op = "minimize" -> First(MinimizeWhy(Ev), WbWhy(Ev))
          [] Ev.op = "amo"      -> AmoWhy(Ev)
          [] Ev.op = "dump"     -> DumpWhy(Ev)
+         [] Ev.op = "skip"     -> ""     \* the driver refused the case: outside the precondition
          [] Ev.op = "crash"    -> "crash"
          [] Ev.op = "timeout"  -> "timeout"
          [] OTHER              -> "unknown-event"
